@@ -96,7 +96,8 @@ pub fn limit_set(variant: u8) -> [u32; 6] {
     match variant {
         0 => [1, 1, 1, 1, 1, 1],
         1 => [1, 2, 1, 2, 1, 2],
-        _ => [2, 1, 2, 1, 2, 2],
+        2 => [2, 1, 2, 1, 2, 2],
+        _ => [2, 2, 2, 2, 2, 4],
     }
 }
 pub const BYPASSED: u8 = 2;
